@@ -266,19 +266,23 @@ inductive RArg (α : Type) where
   | array (xs : Option (List α))     -- `none`: the null list pyarrow shows for a missing row
   deriving Repr
 
+/-- the iterator `reduce` builds for one requested column -/
+def NFrame.reduceIter (F : NFrame α) (col : Option String × String) : R (List (RArg α)) :=
+  match col.1 with
+  | none => match F.col? col.2 with
+    | some (.base _ v) => pure (v.map RArg.scalar)
+    | some (.nest _) => .error .other   -- a whole nested column: per-row DataFrames (not modelled)
+    | none => .error .keyError
+  | some l => do
+    let c ← F.nest? l
+    let ls ← NArr.iterFieldLists c col.2
+    pure (ls.map RArg.array)
+
 /-- `reduce` (core.py:842-930): the arguments handed to the user function, row by row.
     `cols` = the requested columns `(layer?, name)` after path resolution. -/
 def NFrame.reduceCalls (F : NFrame α) (cols : List (Option String × String)) (dflt : α) : R (List (List (RArg α))) := do
   if cols.isEmpty then throw .valueError
-  let iters ← cols.mapM fun (layer, c) => match layer with
-    | none => match F.col? c with
-      | some (.base _ v) => pure (v.map RArg.scalar)
-      | some (.nest _) => (.error .other : R _)   -- a whole nested column: per-row DataFrames (not modelled)
-      | none => .error .keyError
-    | some l => do
-      let col ← F.nest? l
-      let ls ← NArr.iterFieldLists col c
-      pure (ls.map RArg.array)
+  let iters ← cols.mapM F.reduceIter
   let n := (iters.map List.length).foldl min F.index.length
   pure ((List.range n).map fun i => iters.map fun it => it.getD i (.scalar dflt))
 
